@@ -33,7 +33,9 @@ CONSTANTS N,             \* number of Trace calls
           CanDown,       \* the collector may become unreachable (and reachable again)
           CanCancel,     \* the context may be cancelled
           CanClose,
-          DropWhenFull, Requeue, AtomicSwap, CtxInOpen
+          DropWhenFull, Requeue, AtomicSwap, CtxInOpen,
+          EarlyExit      \* the writer returns as soon as it sees !ok, without a last swap (NOT a defect: TLC shows the
+                         \* buffer is always empty then, MCRemoteEarlyExitEquiv.cfg - as for the file writer)
 
 VARIABLES buf, closed, ch,
           n,             \* number of Trace calls made so far (event ids are 1..N in call order)
@@ -82,9 +84,8 @@ W_Open ==
 
 W_Recv ==        \* _, ok := <-t.ch
     /\ wpc = "wait"
-    /\ \/ ch = 1 /\ ch' = 0 /\ wok' = TRUE
-       \/ ch = 0 /\ closed /\ wok' = FALSE /\ UNCHANGED ch
-    /\ wpc' = "batch"
+    /\ \/ ch = 1 /\ ch' = 0 /\ wok' = TRUE /\ wpc' = "batch"
+       \/ ch = 0 /\ closed /\ wok' = FALSE /\ UNCHANGED ch /\ wpc' = (IF EarlyExit THEN "done" ELSE "batch")
     /\ UNCHANGED <<buf, closed, n, wbuf, werr, reach, sid, broken, inflight, delivered, accepted, lost, dropped, breaks, ctxDone>>
 
 W_Swap ==        \* the accumulation loop ended (batch large enough or deadline): swap under the lock
